@@ -21,7 +21,7 @@ import z3
 
 from . import terms as T
 from .scalars import (SV, SC, SD, SB, ENG, EngineGap, Infeasible, PathBudget, lift, tolift,
-                      is_symscalar)
+                      is_symscalar, _is_nonlinear, _isolated)
 from .sarray import SymArray, FakeDtype, sym_array, entry_terms, real_dtype, wrap, to_object_array, is_sym
 from . import proxy
 
@@ -107,6 +107,7 @@ class Settings(object):
     obligation_timeout_ms = 20000
     tol = None              # None: exact goals only; else (abs_tol, box): tolerance fallback
     nice_models = True
+    isolate = True          # nonlinear obligations are decided in a forked child (hard timeout)
     strict_definedness = False
     shadow = True
     max_shadow = 40
@@ -418,31 +419,51 @@ class Ctx(object):
         st['nontrivial_keys'].add(key)
         t0 = time.time()
         try:
-            s = ENG.fresh_solver(self.S.obligation_timeout_ms)
-            s.add(T.to_z3(goal))
             if len(self.samples) < self.S.sample_limit:
-                self._sample(label, s)
-            r = str(s.check())
-            model = s.model() if r == 'sat' else None
-            if r == 'sat' and (tol if tol is not None else self.S.tol) and not ineq:
-                # exact identity refuted: inexact concrete constants?  tolerance form
-                s = ENG.fresh_solver(self.S.obligation_timeout_ms)
-                r, model = self._tolerance_query(s, lt, rt, tol if tol is not None else self.S.tol)
-                if r == 'unsat':
-                    st['tolerance'] += 1
-            if r == 'unknown' and len(goals) > 1:
-                r, model, s = self._split(goals)
+                s0 = ENG.fresh_solver(self.S.obligation_timeout_ms)
+                s0.add(T.to_z3(goal))
+                self._sample(label, s0)
+            use_tol = (tol if tol is not None else self.S.tol) if not ineq else None
+            if _is_nonlinear([goal] + list(ENG.pc) + list(ENG.axioms)) and self.S.isolate:
+                # z3's own timeout is not reliable on nonlinear goals: decide in a forked child with a hard kill
+                res = _isolated(lambda: self._decide(goal, goals, lt, rt, use_tol),
+                                3 * self.S.obligation_timeout_ms / 1000.0 + 5)
+            else:
+                res = self._decide(goal, goals, lt, rt, use_tol)
+            r = res['r']
+            if res.get('tolerance'):
+                st['tolerance'] += 1
             if r == 'unsat':
                 st['discharged'] += 1
             elif r == 'sat':
-                model = self._nice(s, model)
-                vals, funcs = self._values_from_model(model)
-                self._candidate(label, 'ineq' if ineq else 'eq', vals, self._explain(model, lt, rt), funcs)
+                self._candidate(label, 'ineq' if ineq else 'eq', res['vals'], res['explain'], res['funcs'])
             else:
                 st['inconclusive'] += 1
                 self.inconclusive.append('%s: solver returned %s' % (label, r))
         finally:
             st['solver_s'] += time.time() - t0
+
+    def _decide(self, goal, goals, lt, rt, use_tol):
+        """Pose one obligation; returns a plain dict (so that it can cross a process boundary)."""
+        out = {'r': 'unknown'}
+        s = ENG.fresh_solver(self.S.obligation_timeout_ms)
+        s.add(T.to_z3(goal))
+        r = str(s.check())
+        model = s.model() if r == 'sat' else None
+        if r == 'sat' and use_tol:
+            # exact identity refuted: inexact concrete constants?  tolerance form
+            s = ENG.fresh_solver(self.S.obligation_timeout_ms)
+            r, model = self._tolerance_query(s, lt, rt, use_tol)
+            if r == 'unsat':
+                out['tolerance'] = True
+        if r == 'unknown' and len(goals) > 1:
+            r, model, s = self._split(goals)
+        out['r'] = r
+        if r == 'sat':
+            model = self._nice(s, model)
+            out['vals'], out['funcs'] = self._values_from_model(model)
+            out['explain'] = self._explain(model, lt, rt)
+        return out
 
     def _split(self, goals):
         worst = 'unsat'
@@ -494,6 +515,8 @@ class Ctx(object):
         """Prefer a model with small dyadic input values (replays exactly in floats)."""
         if not self.S.nice_models:
             return model
+        if sum(int(np.prod(i['shape'])) if i.get('shape') else 1 for i in self.inputs.values()) > 400:
+            return model          # large arrays: the plain model is used
         cons = []
         for n, info in self.inputs.items():
             for vn, sort in self._var_names(n, info):
@@ -534,10 +557,16 @@ class Ctx(object):
 
     def _values_from_model(self, model):
         vals = {}
+        table = {}
+        for d in model.decls():
+            if d.arity() == 0:
+                try:
+                    table[d.name()] = float(_num(model[d]))
+                except Exception:
+                    pass
 
         def get(vn, sort):
-            zv = z3.Int(vn) if sort == T.Z else z3.Real(vn)
-            return float(_num(model.eval(zv, model_completion=True)))
+            return table.get(vn, 0.0)
         for n, info in self.inputs.items():
             k = info['kind']
             names = self._var_names(n, info)
